@@ -711,7 +711,12 @@ func (gen *Generator) GenerateCallBySymbol(sym *SexpSymbol, args []Sexp, orig Se
 			gen.AddInstruction(RemoveScopeInstr{})
 		}
 		gen.AddInstruction(PrepareCallInstr{sym, len(args)})
-		gen.AddInstruction(GotoInstr{1}) // goto 1 instead of 0 to avoid adding a new scope
+		// leave the function scope of the finished activation and
+		// enter a fresh one (instruction 0 is AddFuncScopeInstr):
+		// closures created in earlier iterations must keep seeing
+		// their own variables, as they do without the optimisation.
+		gen.AddInstruction(RemoveScopeInstr{})
+		gen.AddInstruction(GotoInstr{0})
 	} else {
 		gen.AddInstruction(CallExprInstr{callee: sym, args: append([]Sexp(nil), args...)})
 	}
